@@ -315,6 +315,33 @@ fn case_fn(case: &mut Case) -> CaseResult {
                         ));
                     }
                 }
+                // omission of a nullable field of a (nested) input object inside this variable's value: admitted
+                // exactly when the option is on (the statement's "nullable ones may be omitted exactly when ...")
+                if let Some(cur) = m.get(&vd.name) {
+                    for (path, v_omitted) in nested_omissions(&s, cur, &vd.ty, 0).into_iter().take(4) {
+                        let mut m2 = m.clone();
+                        m2.insert(vd.name.clone(), v_omitted);
+                        let v2 = Val::Obj(m2);
+                        let admitted = tsmini::member(&v2, &sem, 0).map_err(unsup)?;
+                        let coercible = co.vars_coercible(&v2, &vars).is_ok();
+                        case.evals(1);
+                        case.label("nested-nullable-field-omitted");
+                        if admitted && !coercible {
+                            return Err(Failure::new(
+                                "admits-uncoercible-input:nested-omit",
+                                format!("{tn} admits ${} without {path}", vd.name),
+                                json!({"detail": detail, "value": v2.to_json()}),
+                            ));
+                        }
+                        if admitted != allow_undefined {
+                            return Err(Failure::new(
+                                "optional-omission-mismatch:nested-field",
+                                format!("omitting the nullable input field {path} inside ${} is {} although allowUndefinedAsOptionalInput={allow_undefined}", vd.name, if admitted { "admitted" } else { "rejected" }),
+                                json!({"detail": detail, "value": v2.to_json()}),
+                            ));
+                        }
+                    }
+                }
                 // scalar atom of the *output* side where it differs from the input side
                 if s.kind(vd.ty.base()) == Some(Kind::Scalar) && vd.ty.list_depth() == 0 {
                     let inp = cfg.ts(vd.ty.base(), Target::OperationInput).to_string();
@@ -367,4 +394,41 @@ pub fn run(env: &Env) -> i32 {
     rep.assume("list variables are supplied as arrays (the emitted type is an array type); extra object keys are outside the value domain");
     rep.campaign("variables", env.cases(15_000, 150_000), (300, 1400), case_fn);
     rep.finish()
+}
+
+/// variants of `v` (a value of type `ty`) in which exactly one present, nullable field of an input object
+/// - at any depth, through lists - is removed; with the path of the removed field
+fn nested_omissions(s: &Schema, v: &Val, ty: &MType, depth: usize) -> Vec<(String, Val)> {
+    let mut out = vec![];
+    if depth > 4 {
+        return out;
+    }
+    match (v, ty.nullable()) {
+        (Val::List(items), MType::List(inner)) => {
+            if let Some(first) = items.first() {
+                for (p, x) in nested_omissions(s, first, inner, depth + 1) {
+                    let mut items2 = items.clone();
+                    items2[0] = x;
+                    out.push((format!("[0]{p}"), Val::List(items2)));
+                }
+            }
+        }
+        (Val::Obj(m), MType::Named(n)) if s.kind(n) == Some(Kind::Input) => {
+            for f in &s.types[n.as_str()].input_fields {
+                let Some(fv) = m.get(&f.name) else { continue };
+                if !f.ty.is_non_null() {
+                    let mut m2 = m.clone();
+                    m2.remove(&f.name);
+                    out.push((format!(".{}", f.name), Val::Obj(m2)));
+                }
+                for (p, x) in nested_omissions(s, fv, &f.ty, depth + 1) {
+                    let mut m2 = m.clone();
+                    m2.insert(f.name.clone(), x);
+                    out.push((format!(".{}{p}", f.name), Val::Obj(m2)));
+                }
+            }
+        }
+        _ => {}
+    }
+    out
 }
